@@ -299,6 +299,7 @@ func VH_C13_arbitrary_4()  { vArbitrary(4) }
 type vStream struct {
 	data []byte
 	pos  int
+	mode int // 0: every mixture of 1-byte and full reads; 1: always full; 2: always one byte
 }
 
 func (s *vStream) Read(p []byte) (int, error) {
@@ -314,7 +315,12 @@ func (s *vStream) Read(p []byte) (int, error) {
 	}
 	// chunking: one byte or everything that fits (every mixture of the two over the reads)
 	n := max
-	if vNondetBool() {
+	switch s.mode {
+	case 0:
+		if vNondetBool() {
+			n = 1
+		}
+	case 2:
 		n = 1
 	}
 	copy(p, s.data[s.pos:s.pos+n])
@@ -391,3 +397,54 @@ func VH_C13_trunc_zero_count_missing() {
 	}
 	vAssert((err1 != nil && err1 != io.EOF) || (err2 != nil && err2 != io.EOF), "C13.trunc.zero.stream-errors-not-clean-eof")
 }
+
+// Reader.Read (the io.Reader face used by NewPackedDecoder): a first destination of size a and
+// further ones of size b, a and b drawn from {1, 3, 8, 11}, over Pack(x) delivered by the underlying
+// stream at once or byte by byte, yields exactly the bytes of x, in order, then io.EOF;
+// never more bytes than asked for, never (0, nil) for a non-empty destination.
+func vReadOf(x []byte) {
+	p := Pack(nil, x)
+	vReach("packed")
+	mode := 1
+	if vNondetBool() {
+		mode = 2
+	}
+	rd := NewReader(bufio.NewReaderSize(&vStream{data: p, mode: mode}, 16))
+	got := 0
+	// the first destination has size a, all later ones size b
+	sizes := [4]int{1, 3, 8, 11}
+	a, b := sizes[vNondetU8()&3], sizes[vNondetU8()&3]
+	for rounds := 0; got < len(x); rounds++ {
+		if rounds > 2*len(x) {
+			vAssert(false, "C13.read.progress")
+			return
+		}
+		sz := b
+		if rounds == 0 {
+			sz = a
+		}
+		buf := make([]byte, sz)
+		n, err := rd.Read(buf)
+		vAssert(n >= 0 && n <= sz, "C13.read.count-in-range")
+		vAssert(err == nil, "C13.read.no-error-before-end")
+		vAssert(n > 0, "C13.read.progress")
+		if err != nil || n <= 0 || n > sz {
+			return
+		}
+		vAssert(got+n <= len(x), "C13.read.no-invented-bytes")
+		if got+n > len(x) {
+			return
+		}
+		j := vNondetInt()
+		vAssume(j >= 0 && j < n)
+		vAssert(buf[j] == x[got+j], "C13.read.bytes")
+		got += n
+	}
+	vReach("drained")
+	var one [1]byte
+	n, err := rd.Read(one[:])
+	vAssert(n == 0 && err == io.EOF, "C13.read.clean-eof-at-end")
+}
+
+func VH_C13_read_1() { vReadOf(vPatternWords(1)) }
+func VH_C13_read_2() { vReadOf(vPatternWords(2)) }
